@@ -321,7 +321,8 @@ def main(argv=None):
                  "(paths that differ only in enumerated discrete choices are not counted)"),
         'rule_override': getattr(mod, 'NONTRIVIAL_RULE', None),
         'samples': rng_samples or [{'note': 'no completed path'}],
-        'exhaustive': not inconclusive and not args.only,
+        'exhaustive': not inconclusive and not args.only and all(r.get('complete', False) for r in results),
+        'shards_stopped_at_counterexamples': [r['name'] for r in results if 'complete' in r and not r['complete']],
         'paths_aborted_by_assumptions': total.aborted,
         'branch_forks': total.forks,
         'max_depth': total.max_depth,
@@ -378,8 +379,14 @@ def main(argv=None):
     print(f"[{prop} {tier}] shards={len(results)} paths={total.paths} forks={total.forks} "
           f"checks={total.checks} (solver-decided {total.sym_checks}) queries={total.queries} "
           f"solver={total.solver_s:.1f}s wall={wall:.1f}s")
+    seen_known = set()
     for k, path in known_hits:
-        print(f"KNOWN-FINDING: property={prop} {k.get('id')}: {k.get('description')} (replay={path})")
+        if k.get('id') in seen_known:
+            continue            # one line per listed finding (first replay); all replays are kept in replays/
+        seen_known.add(k.get('id'))
+        n = sum(1 for k2, _ in known_hits if k2.get('id') == k.get('id'))
+        print(f"KNOWN-FINDING: property={prop} {k.get('id')}: {k.get('description')} "
+              f"({n} counterexample(s) matched, first replay={path})")
     for name, label, path, text in confirmed:
         print(f"--- counterexample in shard {name!r}, check {label!r}:")
         print(text)
@@ -391,7 +398,7 @@ def main(argv=None):
         for m in inconclusive:
             print("  -", m)
         return 2
-    print(f"OK property={prop}: held on everything explored")
+    print(f"OK property={prop}: held on everything explored" + (" (apart from the known findings listed above)" if known_hits else ""))
     return 0
 
 
